@@ -17,7 +17,7 @@ def _req(role, i, origin, d, body):
     elif role == 'web':
         head = (b'POST' if body else b'GET') + b' /hello' + p + b' HTTP/1.1\r\nHost: x\r\n'
     else:
-        head = (b'POST' if body else b'GET') + (b' /get' if origin == b'up1.example' else b' /api/x') + b' HTTP/1.1\r\nHost: x\r\nX-I: ' + (b'%d' % i) + B(d) + b'\r\n'
+        head = (b'POST' if body else b'GET') + (b' /get' if origin == b'up1.example' else (b' /lit' if origin == b'literal' else b' /api/x')) + b' HTTP/1.1\r\nHost: x\r\nX-I: ' + (b'%d' % i) + B(d) + b'\r\n'
     if body:
         head = head + b'Content-Length: 2\r\n'
     return head + b'\r\n' + (b'B' + (b'%d' % i) if body else b'')
@@ -29,6 +29,18 @@ def _split_requests(data):
     while len(data) > 0:
         try:
             m = refhttp.read_message(data, False)
+        except refhttp.Malformed:
+            break
+        out.append(m)
+        data = m['remainder']
+    return out, data
+
+
+def _split_responses(data):
+    out = []
+    while len(data) > 0:
+        try:
+            m = refhttp.read_message(data, True)
         except refhttp.Malformed:
             break
         out.append(m)
@@ -48,6 +60,10 @@ def persistent(d0: int, d1: int, d2: int, order: int) -> bool:
     origins = [o.encode() for o in CFG['origins']]
     bodies = CFG.get('bodies', [False] * n)
     packing = CFG['packing']           # 'separate' | 'together' | ['cut', position]
+    if CFG.get('waits'):
+        if order != 1:
+            return skip()
+        order = 1       # the client waits for each response before sending on
     ds = [d0, d1, d2]
     reqs = [_req(role, i, origins[i], ds[i], bodies[i]) for i in range(n)]
     stream = b''
@@ -57,6 +73,12 @@ def persistent(d0: int, d1: int, d2: int, order: int) -> bool:
         segs = list(reqs)
     elif packing == 'together':
         segs = [stream]
+    elif packing[0] == 'cut_last':
+        # every request in its own segment, the last one split in two
+        c = packing[1]
+        if c <= 0 or c >= len(reqs[-1]):
+            return skip()
+        segs = list(reqs[:-1]) + [reqs[-1][:c], reqs[-1][c:]]
     else:
         c = packing[1]
         if c <= 0 or c >= len(stream):
@@ -73,6 +95,8 @@ def persistent(d0: int, d1: int, d2: int, order: int) -> bool:
     ex = xk.ex
     seen = {}            # upstream socket name -> [cursor into its received bytes, complete requests parsed so far, answered count]
     si = 0
+    rcur = [0, 0]          # cursor into the client's received bytes, complete responses seen
+    sent_bytes = [0]
 
     def poll(us):
         st = seen.setdefault(us.name, [0, [], 0])
@@ -90,8 +114,20 @@ def persistent(d0: int, d1: int, d2: int, order: int) -> bool:
             st = poll(us)
             if len(st[1]) > st[2]:
                 pending_answer = True
-        if si < len(segs) and (order == 0 or not pending_answer):
+        # a waiting client sends on only when every request it has completely sent has been answered
+        if order == 1 and len(cs.out) > rcur[0]:
+            rgot, rrest = _split_responses(cs.out[rcur[0]:])
+            rcur[1] += len(rgot)
+            rcur[0] = len(cs.out) - len(rrest)
+        sent_complete = 0
+        acc = 0
+        for r_ in reqs:
+            acc += len(r_)
+            if acc <= sent_bytes[0]:
+                sent_complete += 1
+        if si < len(segs) and (order == 0 or (not pending_answer and rcur[1] >= sent_complete)):
             cs.inq.append(segs[si])
+            sent_bytes[0] += len(segs[si])
             si += 1
         for us in ups:
             st = seen[us.name]
@@ -132,7 +168,7 @@ def persistent(d0: int, d1: int, d2: int, order: int) -> bool:
         if role == 'forward':
             want_path = b'/r%d' % i + B(ds[i])
         else:
-            want_path = b'/get' if origin == b'up1.example' else b'/v1'
+            want_path = b'/get' if origin == b'up1.example' else (b'/lit' if origin == b'literal' else b'/v1')
         body = resp[i]['body']
         xo = [v for k, nm, v in resp[i]['headers'] if k == b'x-origin']
         if len(xo) != 1 or not xo[0].startswith(origin + b'#'):
@@ -178,6 +214,9 @@ def obligations(tier):
                         continue
                     add('%s.n%d.%s.%s' % (role, n, tag, packing), role=role, n=n, origins=ol, packing=packing)
                 if n == 2:
+                    l2 = len(_req(role, 1, ol[1].encode(), 97, True))
+                    for c in (4, l2 - 3, l2 - 1):
+                        add('%s.n2.%s.cut_last%d' % (role, tag, c), role=role, n=2, origins=ol, packing=['cut_last', c], bodies=[False, True])
                     add('%s.n2.%s.bodies.separate' % (role, tag), role=role, n=2, origins=ol, packing='separate', bodies=[True, True])
                     add('%s.n2.%s.bodies.together' % (role, tag), role=role, n=2, origins=ol, packing='together', bodies=[True, False])
                     if tag == 'same':
@@ -186,6 +225,10 @@ def obligations(tier):
                         cuts = [5, l1 - 2, l1 - 1, l1 + 1, l1 + 3, l1 + 20] if tier == 'quick' else list(range(1, 2 * l1, 3))
                         for c in cuts:
                             add('%s.n2.%s.cut%d' % (role, tag, c), role=role, n=2, origins=ol, packing=['cut', c])
+    for ol, tag in ((['up1.example', 'literal'], 'upstream_then_literal'), (['literal', 'up1.example'], 'literal_then_upstream'),
+                    (['up1.example', 'literal', 'up1.example'], 'upstream_literal_upstream')):
+        add('reverse.n%d.%s.separate' % (len(ol), tag), role='reverse', n=len(ol), origins=ol, packing='separate')
+        add('reverse.n%d.%s_client_waits.separate' % (len(ol), tag.replace('upstream_', 'up_')), role='reverse', n=len(ol), origins=ol, packing='separate', waits=True)
     return obs
 
 
